@@ -759,3 +759,15 @@ _C20 = [
     (R(r'Result::<.*>::map_err::<.*'), result_map_err),
 ]
 MODELS_NORM = [(re.compile(norm_path(p.pattern)), f) for p, f in _C20] + MODELS_NORM
+
+# ------------------------------------------------------------------ deno_media_type::MediaType predicates (tables copied from deno_media_type 0.4.0)
+_MT_SETS = {
+    'is_typed': ['TypeScript', 'Mts', 'Cts', 'Dts', 'Dmts', 'Dcts', 'Tsx', 'Json', 'Jsonc', 'Json5', 'Wasm'],
+    'is_declaration': ['Dts', 'Dmts', 'Dcts'],
+    'is_emittable': ['TypeScript', 'Mts', 'Cts', 'Jsx', 'Tsx'],
+    'is_jsx': ['Tsx', 'Jsx'],
+}
+def media_type_pred(eng, c, a, g):
+    m = deref_val(eng, a[0]); names = eng.mir.enums['MediaType']
+    return OR(*[EQ(m.tag, BV(names.index(n), 8)) for n in _MT_SETS[c.split('::')[-1]]])
+MODELS_NORM = [(re.compile(r'MediaType::(is_typed|is_declaration|is_emittable|is_jsx)'), media_type_pred)] + MODELS_NORM
